@@ -1,6 +1,7 @@
 package fake
 
 import (
+	"encoding/json"
 	"fmt"
 
 	"github.com/vektah/gqlparser/v2/ast"
@@ -135,8 +136,16 @@ func (e *Evaluator) resolve(obj *Obj, rootType string, f *ast.Field, vars map[st
 }
 
 func canonArg(x interface{}) string {
-	if m, ok := x.(map[string]interface{}); ok {
-		return fmt.Sprintf("{q:%v,limit:%v}", m["q"], m["limit"])
+	if m, ok := x.(map[string]interface{}); ok && len(m) <= 2 {
+		_, hq := m["q"]
+		_, hl := m["limit"]
+		if n := len(m); (n == 2 && hq && hl) || (n == 1 && (hq || hl)) || n == 0 {
+			return fmt.Sprintf("{q:%v,limit:%v}", m["q"], m["limit"])
+		}
+	}
+	// any other shape (lists, nested objects): its JSON text, keys sorted
+	if b, err := json.Marshal(x); err == nil {
+		return string(b)
 	}
 	return fmt.Sprint(x)
 }
